@@ -45,7 +45,7 @@ func switchArms(fn *ssa.Function) []switchArm {
 		if !ok || c.Value == nil {
 			continue
 		}
-		out = append(out, switchArm{Subject: Term(x), Const: c, If: ifi, Arm: b.Succs[0]})
+		out = append(out, switchArm{Subject: Term(resolveUnderGuards(x, b)), Const: c, If: ifi, Arm: b.Succs[0]})
 	}
 	return out
 }
@@ -420,6 +420,77 @@ func c06Codes(r *Run, w *World) {
 			}
 			wantEff := fmt.Sprintf(store, wantV)
 			r.Check(eff == wantEff, meth+" case "+k, pos, fmt.Sprintf("%s → %s (%d)", k, def, wantV), fmt.Sprintf("%q maps to [%s]; want [%s] (%s)", k, eff, wantEff, def))
+		}
+		// the same mapping written as a function-local table: m := map[K]V{...}; if v, ok := m[subject]; ok { <effect with v> }
+		if len(seen) == 0 {
+			instrsOf(fn, func(in ssa.Instruction) {
+				lk, ok := in.(*ssa.Lookup)
+				if !ok || !lk.CommaOk || Term(lk.Index) != subject {
+					return
+				}
+				mk, ok := lk.X.(*ssa.MakeMap)
+				if !ok || mk.Referrers() == nil {
+					return
+				}
+				// the found branch produces the effect with the looked-up value
+				var val, found ssa.Value
+				if lk.Referrers() != nil {
+					for _, rf := range *lk.Referrers() {
+						if ex, ok := rf.(*ssa.Extract); ok {
+							if ex.Index == 0 {
+								val = ex
+							} else {
+								found = ex
+							}
+						}
+					}
+				}
+				if val == nil || found == nil {
+					return
+				}
+				effOK := false
+				undo := alias(val, "%d")
+				for _, b := range fn.Blocks {
+					if HoldsAt(b, Lit(found, true)) {
+						if eff, _ := armEffect(b, b.Idom()); eff == store {
+							effOK = true
+						}
+					}
+				}
+				undo()
+				// every other use of the map is this lookup or an insertion of a constant pair
+				for _, rf := range *mk.Referrers() {
+					switch u := rf.(type) {
+					case *ssa.MapUpdate:
+						kc, kIs := u.Key.(*ssa.Const)
+						vc, vIs := stripConv(u.Value).(*ssa.Const)
+						if !kIs || !vIs || kc.Value == nil || vc.Value == nil || u.Block() != mk.Block() {
+							r.Fail(meth+" table entry", u.Pos(), "the local table is filled with a non-constant pair or outside its definition")
+							continue
+						}
+						k := constKey(kc)
+						def, ok := want[k]
+						if !ok {
+							r.Fail(meth+" case "+k, u.Pos(), "name not in the reviewed table")
+							continue
+						}
+						seen[k] = true
+						wantV := ref.Defines[def]
+						if strings.HasPrefix(def, "S_IF") {
+							wantV = ref.StatModes[def]
+						}
+						gotV, _ := constInt(vc)
+						r.Check(effOK && uint64(gotV) == uint64(wantV), meth+" case "+k, u.Pos(), fmt.Sprintf("%s → %s (%d)", k, def, wantV),
+							fmt.Sprintf("%q maps to %d (or the found branch does not produce [%s]); want %d (%s)", k, gotV, store, wantV, def))
+					case *ssa.Lookup:
+						if u != lk {
+							r.Fail(meth+" table use", u.Pos(), "the local table is looked up a second time")
+						}
+					default:
+						r.Fail(meth+" table use", rf.Pos(), "the local table escapes")
+					}
+				}
+			})
 		}
 		for k := range want {
 			if !seen[k] {
